@@ -41,4 +41,14 @@ func init() {
 		Real:        []string{"inmem transactional backend", "physical cache + cache transactions", "key-encoding layer", "TransactionalAESGCMBarrier", "transactional storage views", "RaftBackend, raft FSM, fsmTxnCommitIndexTracker, hashicorp/raft (single node)"},
 		Stub:        []string{"simdisk as one of the bottoms", "Raft transport (in-memory), clock (synctest) for the Raft stacks"},
 	}
+	props["C09"] = propCfg{
+		Level: "exploration", QuickS: 60, ThoroughS: 900, Chunk: 60,
+		Rule:        "Each run first lets a real single-node leader execute a seeded concurrent workload of transactions and plain writes with scheduler-paced FSM applies (so entries carry stale transaction start indexes and varied LowestActiveIndex values), reads the command entries back from its log store, then replays them on 2-5 fresh state machines, each with its own partition into ApplyBatch calls (1..64 entries), restart positions and snapshot-install positions drawn from the tape.",
+		LevelText:   "Seeded search over (log produced by the real leader code) x (batching, restart and snapshot-install positions per replica); after every replica has applied the log, data buckets must be byte-identical and every transaction's commit-or-conflict verdict must be the same on all replicas and equal to the verdict the leader returned to its client.",
+		LevelNote:   "Trusted: harness, bbolt. Replicas are FSM instances driven directly (ApplyBatch / Close+NewFSM / BoltSnapshotStore sink + Restore), the way hashicorp/raft drives them; the consensus protocol itself is third-party and not under test. Values stay below the chunking threshold.",
+		Technique:   "deterministic simulation: leader log captured from the real RaftBackend under a seeded scheduler, replayed on independent replicas under seeded batching / restart / snapshot faults; agreement oracle",
+		Assumptions: []string{"hashicorp/raft delivers the same committed log to every replica", "bbolt is correct"},
+		Real:        []string{"RaftBackend, RaftTransaction, applyLog", "FSM.ApplyBatch, fsmTxnCommitIndexTracker", "NewFSM reopen", "BoltSnapshotStore + FSM.Restore", "hashicorp/raft single node (leader side)"},
+		Stub:        []string{"Raft transport (in-memory)", "clock (synctest)", "replica side of the Raft protocol (entries are handed to ApplyBatch by the harness)"},
+	}
 }
